@@ -576,8 +576,13 @@ func (a addr) String() string  { return string(a) }
 func (t *Transport) LocalAddr() net.Addr  { return addr("mock-local") }
 func (t *Transport) RemoteAddr() net.Addr { return addr("mock-remote") }
 func (t *Transport) SetDeadline(d time.Time) error {
-	return nil
+	// read and write deadline; only the write side is emulated
+	return t.SetWriteDeadline(d)
 }
+
+// NowFunc is the clock write deadlines are compared with (the no-sleep stage adds the time Close has "slept").
+var NowFunc = time.Now
+
 func (t *Transport) SetReadDeadline(d time.Time) error { return nil }
 func (t *Transport) SetWriteDeadline(d time.Time) error {
 	t.mu.Lock()
@@ -589,7 +594,7 @@ func (t *Transport) SetWriteDeadline(d time.Time) error {
 
 // deadlineErrLocked: like a real connection, a write-side call made when the armed write deadline has passed fails at once.
 func (t *Transport) deadlineErrLocked() error {
-	if !t.wDeadline.IsZero() && !time.Now().Before(t.wDeadline) {
+	if !t.wDeadline.IsZero() && !NowFunc().Before(t.wDeadline) {
 		return &NetErr{Msg: "verif: mock i/o timeout (write deadline passed)", TO: true}
 	}
 	return nil
